@@ -1020,9 +1020,8 @@ func phiLeavesWithPred(v ssa.Value) []phiLeaf {
 	var out []phiLeaf
 	for i, e := range ph.Edges {
 		if _, nested := e.(*ssa.Phi); nested {
-			for _, l := range phiLeavesWithPred(e) {
-				out = append(out, phiLeaf{l.v, ph.Block().Preds[i]})
-			}
+			// leaves of a nested phi keep the edge on which they enter the inner phi
+			out = append(out, phiLeavesWithPred(e)...)
 			continue
 		}
 		out = append(out, phiLeaf{e, ph.Block().Preds[i]})
